@@ -647,15 +647,18 @@ def stats_limit_lines(toks):
     tok = toks[0][0]
     big = 2 ** 256 - 1
     fee = [fee_action([(U[2], "b", 100), (U[3], "a", 7)])]
-    g = "pp=[];pcc=[];pa=[];params=0;amts=[1|%s|4|%s|%s|%d|%d,1|%s|2|%s|%s|%d|7,1|%s|3|%s|%s|%d|%d];cnts=[1|%s|4|%s|%d,1|%s|2|%s|5]" % (
+    g = "pp=[];pcc=[];pa=[];params=0;amts=[1|%s|4|%s|%s|%d|%d,1|%s|2|%s|%s|%d|7,1|%s|3|%s|%s|%d|%d];cnts=[1|%s|4|%s|%d,1|%s|2|%s|5,1|%s|4|%s|%d,1|%s|2|%s|%d]" % (
         hx("channel-0"), hx("noble"), hx("uusdc"), big, big - 5, hx("channel-0"), hx("0"), hx("uusdc"), big - 999,
-        hx("channel-0"), hx("1"), hx("uusdc"), big - 1, big - 1, hx("channel-0"), hx("noble"), 2 ** 64 - 1, hx("channel-0"), hx("0"))
+        hx("channel-0"), hx("1"), hx("uusdc"), big - 1, big - 1, hx("channel-0"), hx("noble"), 2 ** 64 - 1, hx("channel-0"), hx("0"),
+        # routes whose counter is saturated while their amounts are not: the coin is still recorded
+        hx("channel-1"), hx("noble"), 2 ** 64 - 1, hx("channel-1"), hx("0"), 2 ** 64 - 1)
     lines.append("genload " + g)
     for op in ("recv", "recvh"):
         lines += [orb_pkt(op, 1000, int_fwd(U[1])), orb_pkt(op, 1000, int_fwd(U[1]), fee), orb_pkt(op, 6, int_fwd(U[1])),
                   orb_pkt(op, 999, cctp_fwd(domain=0)), orb_pkt(op, 10 ** 6, cctp_fwd(domain=0), fee),
                   orb_pkt(op, 10 ** 6, hyp_fwd(tok, domain=1), fee), orb_pkt(op, 10 ** 6, hyp_fwd(tok, domain=1)),
-                  orb_pkt(op, 1000, int_fwd(U[1]), fee, dst_chan="channel-1")]
+                  orb_pkt(op, 1000, int_fwd(U[1]), fee, dst_chan="channel-1"), orb_pkt(op, 1000, cctp_fwd(domain=0), None, dst_chan="channel-1"),
+                  orb_pkt(op, 777, int_fwd(U[1]), None, denom="uother", dst_chan="channel-1")]
     lines.append("export")
     return lines
 
@@ -2120,6 +2123,11 @@ def c16_route_lines(r, toks):
     lines, _ = scen.base_setup()
     tok = {d: t for (t, d) in toks}
     fee = [fee_action([(U[4], "b", 100)])]
+    # a fee whose recipient is the orbiter account itself: the running amount shrinks while the coins stay — the forwarder must notice
+    for sf in ([fee_action([(ORB, "b", 100)])], [fee_action([(ORB, "a", 5), (U[3], "a", 5)])], [fee_action([(U[3], "b", 50), (ORB.upper(), "a", 1)])]):
+        for rt in (int_fwd(U[1]), cctp_fwd(domain=0), hyp_fwd(tok["uusdc"], domain=1)):
+            for op in ("recv", "recvh"):
+                lines.append(orb_pkt(op, 10 ** 6, rt, sf, denom="uusdc"))
     for dn in ("uusdc", "uother"):
         other = "uother" if dn == "uusdc" else "uusdc"
         routes = [int_fwd(U[1])]
@@ -2184,10 +2192,9 @@ def c16_oracle(steps):
                 m = re.search(r"warp\.RemoteTransfer:.*?:amount=(\d+):", req)
                 if m and no_actions and int(m.group(1)) != amt:
                     out.append((s.i, "different-coin: remote transfer of %s, ICS-20 credited %d %s" % (m.group(1), amt, dn)))
-                if no_actions:
-                    orbk = [(a, d) for (a, d), v in delta.items() if a == ORB_BYTES.hex() and v != 0]
-                    if orbk:
-                        out.append((s.i, "different-coin: the orbiter account changed in %s" % orbk))
+                orbk = [(a, d) for (a, d), v in delta.items() if a == ORB_BYTES.hex() and v != 0]
+                if orbk:
+                    out.append((s.i, "different-coin: part of the credited coin stayed on the orbiter account: %s" % orbk))
                 st = s.impl.get("st", "")
                 if ("|%s|" % hx(dn)) not in st:
                     out.append((s.i, "different-coin: statistics do not record denom %s" % dn))
@@ -2215,7 +2222,8 @@ class C16(Base):
         f2 = {"recv": ["ack", "bal", "req", "mv", "st"], "recvh": ["ack", "bal", "hreq", "st"]}
         return [Stream("S1+S3-denominations-beside-ICS20", c16_lines(r, self.n(tier, 200, 2000)), fields=f, oracle=c16_oracle),
                 Stream("S3-credited-coin-on-every-route", c16_route_lines(r.fork(2), toks), fields=f2, oracle=c16_oracle),
-                Stream("S3-dropped-branches", dry_lines(Rng(seed * 1000 + 116), toks, self.n(tier, 60, 300)))]
+                Stream("S3-dropped-branches", dry_lines(Rng(seed * 1000 + 116), toks, self.n(tier, 60, 300))),
+                Stream("S3-statistics-at-the-limit", stats_limit_lines(toks), fields=f2, oracle=c16_oracle)]
 
 
 # ----------------------------------------------------------------------------------------------- C18
